@@ -238,7 +238,14 @@ def _store_array(
     identity = lambda a: a
     blockwise_kwargs = blockwise_kwargs or {}
     if region is None or all(r == slice(None) for r in region):
-        if not isinstance(source._zarray, LazyZarrArray):
+        if (
+            not isinstance(source._zarray, LazyZarrArray)
+            or getattr(source._zarray, "relocated", False)
+            or (is_storage_array(target) and target.chunks != source.chunksize)
+        ):
+            # copy into the target (also for an array that has already been relocated to
+            # an earlier store target, and for a target whose chunks differ from the
+            # source's, since arrays are read back by their storage chunks)
             ind = tuple(range(source.ndim))
             return blockwise(
                 identity,
@@ -252,16 +259,15 @@ def _store_array(
                 **blockwise_kwargs,
             )
         else:
-            # TODO: allow late assignment of array stores so we don't have to re-wire
-            # and update write proxy
-
-            # replace source target array with new target
-            source._zarray = target
-
-            # replace plan target array with new target
-            for n, d in source._plan.dag.nodes(data=True):
-                if n == source.name and "target" in d:
-                    d["target"] = target
+            # Late assignment of the array's store: relocate the source's (not yet
+            # created) Zarr array to the target in place. The lazy array object is shared
+            # by the operation that writes it and by every operation built earlier that
+            # reads it, so all of them keep referring to the same location.
+            lazy = source._zarray
+            lazy.store = target.store
+            lazy.path = target.path
+            lazy.kwargs = {} if is_storage_array(target) else target.kwargs
+            lazy.relocated = True
 
             # update predecessor ops
             from cubed.core.optimization import predecessors_unordered
@@ -273,19 +279,11 @@ def _store_array(
                 if n not in predecessor_ops:
                     continue
                 if "primitive_op" in d:
-                    # replace primitive op target array with new target
-                    # and mark as not fusable with successors as store must be written
+                    # mark as not fusable with successors as store must be written
                     op = d["primitive_op"]
-                    op.target_array = target
                     op.fusable_with_successors = False
-
-                    # replace write proxy target array with new target
-                    pipeline = op.pipeline
-                    writes_map = pipeline.config.writes_map
-                    if source.name in writes_map:
-                        writes_map[source.name].array = target
                     if blockwise_kwargs.get("return_writes_stores", False):
-                        pipeline.config.return_writes_stores = True
+                        op.pipeline.config.return_writes_stores = True
             # return the updated source
             return source
 
